@@ -15,7 +15,8 @@ HInit == Init /\ hist = <<>>
 HNext ==
     \/ \E c \in Callers :
          \/ H(Start(c), <<"Start", c>>) \/ H(Again(c), <<"Again", c>>)
-         \/ AllowFire /\ (H(Fire(c), <<"Fire", c>>) \/ H(FireFail(c), <<"FireFail", c>>)) \/ H(SendLock(c), <<"SendLock", c>>) \/ H(Transmit(c), <<"Transmit", c>>) \/ H(TransmitFail(c), <<"TransmitFail", c>>)
+         \/ (AllowFire /\ (H(Fire(c), <<"Fire", c>>) \/ H(FireFail(c), <<"FireFail", c>>)))
+         \/ H(SendLock(c), <<"SendLock", c>>) \/ H(Transmit(c), <<"Transmit", c>>) \/ H(TransmitFail(c), <<"TransmitFail", c>>)
          \/ H(WakeRecv(c), <<"WakeRecv", c>>) \/ H(WakeTimeout(c), <<"WakeTimeout", c>>) \/ H(WakeCtx(c), <<"WakeCtx", c>>)
          \/ H(WakeClosed(c), <<"WakeClosed", c>>) \/ H(Proceed(c), <<"Proceed", c>>)
          \/ H(CancelDone(c), <<"CancelDone", c>>) \/ H(CancelLock(c), <<"CancelLock", c>>)
